@@ -654,6 +654,17 @@ fn apply(st: &mut State, line: &str, out: &mut String) {
                 };
             }
         }
+        "ead2" => {
+            // ead2 ws id c1 v1 c2 v2 rm: Entry::add(C1) then Entry::add(C2) / Entry::remove::<C2>() through one Entry
+            let (i, g) = parse_target(t[2], &st.issued);
+            opline = format!("op ead2 {} {}:{} {}", t[1], i, g, t[3..].join(" "));
+            if let Some(w) = st.worlds[u(1)].as_mut() {
+                ret = match entry_add_then(w, mk_id(i, g), u(3), v64(4), u(5), v64(6), u(7) == 1) {
+                    None => "bool false".into(),
+                    Some(()) => "bool true".into(),
+                };
+            }
+        }
         "rsv" => {
             let (ws, desc, k) = (u(1), u(2) == 1, u(3));
             let cs: Vec<usize> = (0..k).map(|j| u(4 + j)).collect();
